@@ -1337,7 +1337,8 @@ class SimTime:
             raise VirtualTimeExhausted("more than %d sleeps" % k.max_time_events)
         if secs < 0:
             raise ValueError("sleep length must be non-negative")
-        self._advance(secs)
+        # a sleep may last longer than asked for (loaded machine, SIGSTOP)
+        self._advance(secs * (1 + getattr(k, "oversleep", 0)))
 
 
 # --------------------------------------------------------------------------
